@@ -67,6 +67,26 @@ VSHAPES = [
 ]
 
 
+_feas = {}
+
+
+def _feasible_prefixes(n, depth):
+    """Class prefixes (length `depth`) of the valid signatures of length n, by enumeration over a reduced
+    alphabet (i stands for every basic code, v for the variant)."""
+    import itertools
+    key = (n, depth)
+    if key not in _feas:
+        out = set()
+        for chars in itertools.product('a(){}iv', repeat=n):
+            if chars[0] in '){}':
+                continue
+            w = ''.join(chars)
+            if is_valid(w):
+                out.add(tuple(c if c in 'a(){}' else 'o' for c in w[:depth]))
+        _feas[key] = out
+    return _feas[key]
+
+
 def _pytype(node):
     """Python class of the value a node builds (for the documented first-element rule)."""
     k = node[0]
@@ -238,23 +258,10 @@ def obligations(tier):
     import itertools
     for n in range(1, maxlen + 1):
         depth = 1 if n <= 5 else (2 if n == 6 else 3)
+        feasible = _feasible_prefixes(n, min(depth, n))
         for pre in itertools.product(CLS, repeat=min(depth, n)):
-            if pre[0] in (')', '{', '}'):
-                continue                        # no valid signature starts like that
-            if n == 1 and pre[0] in ('a', '('):
-                continue
-            if n == 2 and pre[0] == '(':
-                continue
-            if len(pre) >= 2 and pre[0] == '(' and pre[1] == ')':
-                continue                        # empty struct: never valid
-            if len(pre) >= 2 and pre[1] == '{' and pre[0] != 'a':
-                continue                        # dict entry only directly after 'a'
-            if len(pre) >= 2 and pre[1] == '}':
-                continue
-            if len(pre) >= 2 and pre[1] == ')' and pre[0] != 'o':
-                continue
-            if len(pre) >= 2 and pre[0] == 'o' and pre[1] == ')':
-                continue                        # unbalanced
+            if pre not in feasible:
+                continue                        # no valid signature of length n starts with these classes
             if tier == 'quick' and n == 6 and 'o' in pre:
                 continue                        # quick: length 6 only for container-heavy prefixes (aa, a(, a{, (a, (()
             to = 120 if n <= 4 else (400 if n == 5 else 900)
